@@ -7,6 +7,11 @@ ALL = ["C%02d" % i for i in range(1, 21)]
 
 # property -> (category, technique, text, note, design_ref)
 CHECKS = {
+ "C14": ("exploration",
+   "bounded exhaustive enumeration of every small labelled dataset (all value sequences x all labelings up to renaming) x the full hyper-parameter grid, each fitted tree walked and re-derived from the routed training rows",
+   "Every value sequence of n <= 5/6 rows over 1-feature alphabets {0,1,2} / {0..3}, 2-feature lattices, adjacent-float families (f32 at 2^24 and 256, f64 at 2^53 and 2^40) and 1e-5-spaced values x every labeling up to class renaming (up to 6 classes; duplicates with conflicting labels, constant features) x label types usize / bool / String x f32 / f64 x sample weights {none, 1,2,1,2.., 0.5} x {Gini, Entropy} x max_depth {None,0,1,2} x min_weight_split x min_weight_leaf x min_impurity_decrease (144 configurations). Oracle (no linfa code): walk the public tree API, route the training rows with the documented <= rule, and recompute depth limits, child structure, split row counts, side weights, impurity decreases (f64), leaf weighted modes (any tied mode accepted), predict == routed leaf, importances, and the agreement of iter_nodes / max_depth / num_leaves with the walk. The subject runs in worker processes so that a stack overflow of fit is reported instead of killing the check; hash-map order is a controlled input of each case.",
+   "Bounded: n <= 6 rows. Impurity decreases are compared with 5e-6 tolerance (f32 arithmetic in the subject); results within that band of min_impurity_decrease are indeterminate. No optimality claim about the chosen split is checked (the statement makes none).",
+   "DESIGN.md 4/C14"),
  "C03": ("exploration",
    "bounded exhaustive enumeration of all batches (ordered selections of a 6-row query pool) x memory layouts x calling forms for a registry of every predictor type, against the model applied to each row alone",
    "28 predictor entries (k-means, GMM, OLS, isotonic, Tweedie, elastic net single / multi-task, PLS x3, logistic binary / multinomial, six SVM variants, decision tree, two naive Bayes, FTRL, PCA, FastICA, MultiTargetModel, MultiClassModel incl. a twin member for exact ties, Platt over two inner models) x 3 fitted instances x every ordered selection of 0..3 (quick) / 0..6 (thorough: all 1957 arrangements) pool rows incl. the empty batch x {standard, column-major, every-second-row view, reversed rows} x nine calling forms (owned / borrowed arrays, views, owned / borrowed datasets, predict_inplace into fresh and into dirty targets). Oracle: row i of every batch == the single-row prediction (labels exact, floats within the worst-case gap of two summation orders), records handed back bitwise, wrong-length targets panic with the documented message, composite rules for MultiTarget / MultiClass / Platt.",
